@@ -84,8 +84,8 @@ CHECKS['C02'] = dict(
     design='3/C02')
 CHECKS['C03'] = dict(
     category='other',
-    text='Programs part only: bounded symbolic execution (CrossHair/z3) of the real executor on the trees of T that contain groups (top level, in a subtest, nested in main, nested in teardown, behind a branch) with symbolic scripts; a monitor written from the statement checks on the observed call log that every teardown node of an entered group ran exactly once after main stopped (exception, STOP, timeout, failed subtest, nested-group failure, terminal earlier teardown node), that nothing of the group runs when setup did not complete, and that a terminal teardown result propagates outward.',
-    note='Trusted: CrossHair+z3, synchronous thread stubs, the monitor in props/C03.py. NOT covered: the abort/schedule part of the quantifier (single operator abort at any moment) - see DESIGN.md; plug tearDown ordering is C08.',
+    text='Programs part: bounded symbolic execution (CrossHair/z3) of the real executor on the trees of T that contain groups (top level, in a subtest, nested in main, nested in teardown, behind a branch) with symbolic scripts; a monitor written from the statement checks on the observed call log that every teardown node of an entered group ran exactly once after main stopped (exception, STOP, timeout, failed subtest, nested-group failure, terminal earlier teardown node), that nothing of the group runs when setup did not complete, and that a terminal teardown result propagates outward.',
+    note='Abort part (props/C03a.py, engine seqz shared with C04): the sequentialised real executor / phase executor / phase thread run two group programs while one abort() arrives at every step of the run with one more symbolic preemption; teardown of an entered group runs exactly once, in order, before plug teardown. Trusted: CrossHair+z3, synchronous thread stubs (programs part), vlib/seqz (abort part), the monitors. Outside: abort in other group shapes; plug tearDown ordering is C08.',
     technique='symbolic execution (CrossHair/z3) of the real executor with a teardown monitor on the call log',
     design='3/C03')
 CHECKS['C18'] = dict(
@@ -125,7 +125,7 @@ CHECKS['C19'] = dict(
     technique='SMT string/regex query from live pattern + symbolic execution of logging histories',
     design='3/C19')
 CHECKS['C12'] = dict(
-    category='model_checking',
+    category='model_checking', engine='seqz',
     text='Bounded model checking of the real KillableThread/kill/join_or_die logic: the thread body, the kill request and the joiner are coroutines generated from the live source (sequentialisation) on cooperative primitives with virtual time; '
          'the step at which kill is delivered, the body shape (finishing, raising, swallowing the termination, blocked) and the join timeout are symbolic and CrossHair/z3 exhausts the paths: kill of a not-started or finished thread is a no-op, a delivered kill ends the thread through ThreadTerminationError exactly once, '
          '_thread_exc/_thread_finished run, join_or_die returns or raises by its deadline.',
@@ -133,7 +133,7 @@ CHECKS['C12'] = dict(
     technique='sequentialisation of real threading code + symbolic schedule (CrossHair/z3)',
     design='8/C12')
 CHECKS['C04'] = dict(
-    category='model_checking',
+    category='model_checking', engine='seqz',
     text='Bounded model checking of the real abort path: TestExecutor._execute_abortable_sequence/_execute_node/abort/..., PhaseExecutor.execute_phase/_execute_phase_once/abort/reset_stop and PhaseExecutorThread are sequentialised from the live source; '
          'test programs (setup/main/teardown groups) run as coroutines on cooperative primitives while one or two abort() calls arrive at symbolic steps under a symbolic preemption; after every schedule: the outcome is ABORTED iff an abort arrived before the end, '
          'no main-phase body starts after abort() returned, teardown of every entered group runs exactly once, a second abort skips at most the current teardown phase, and the executor always terminates.',
@@ -141,7 +141,7 @@ CHECKS['C04'] = dict(
     technique='sequentialisation of the real executor abort path + symbolic schedule (CrossHair/z3)',
     design='8/C04')
 CHECKS['C14'] = dict(
-    category='model_checking',
+    category='model_checking', engine='seqz',
     text='Bounded model checking of the real ADB stream multiplexer: AdbStreamTransport (_read_messages_until_true, _handle_message, enqueue_message, read, write, _send_command, close), AdbConnection (read_for_stream, _handle_message_for_stream, close_stream_transport) and AdbStream.read/write are sequentialised from the live source and run on cooperative Lock/RLock/Condition/Queue with virtual time; '
          'two streams with one reader each under every merge of the device packets, and a writer plus a reader on one stream with device bytes at every position (before/after the OKAY), under a symbolic preemption (two in the short scenario and in the thorough tier) with bounded time skips: per-stream exact in-order bytes, one OKAY per device WRTE with the right ids, CLSE answered once, chunks <= maxdata with one outstanding WRTE, no deadlock, no write waiting out its timeout after its OKAY arrived.',
     note='Trusted: CrossHair+z3, vlib/seqz transformer and primitives, reactive message-level device (framing is C13, handshake C15). Found and fixed D14 (lost wake-up). Outside: 3 streams, longer scripts, >2 preemptions, the randomised part of the quantifier, real-thread timing.',
@@ -175,8 +175,8 @@ def main():
               'source_commits': [], 'add_only': True},
     'engines': [
       {'name': 'xh', 'path': 'vlib/xh.py', 'serves_properties': sorted(CHECKS), 'kind_free_text': 'E1: CrossHair 0.0.110 path-exhaustive symbolic execution of the real Python code, z3 back end; one subprocess per (sub)condition'},
-      {'name': 'smt', 'path': 'vlib/smt.py', 'serves_properties': ['C07'], 'kind_free_text': 'E2: direct z3 queries (FP, regex) generated from live AST / compiled patterns'},
-      {'name': 'seqz', 'path': 'vlib/seqz/core.py', 'serves_properties': ['C13', 'C18'], 'kind_free_text': 'E3: AST sequentialisation of real functions into coroutines + cooperative primitives + scheduler with symbolic decisions; back end CrossHair/z3'},
+      {'name': 'smt', 'path': 'vlib/smt.py', 'serves_properties': ['C07', 'C19'], 'kind_free_text': 'E2: direct z3 queries (FP, regex) generated from live AST / compiled patterns'},
+      {'name': 'seqz', 'path': 'vlib/seqz/core.py', 'serves_properties': ['C03', 'C04', 'C12', 'C13', 'C14', 'C18'], 'kind_free_text': 'E3: AST sequentialisation of real functions into coroutines + cooperative primitives + scheduler with symbolic decisions; back end CrossHair/z3'},
     ],
     'checks': checks,
     'not_applicable': [{'property_id': p, 'reason': NA_REASON.get(p, DEFAULT_NA)} for p in ALL if p not in CHECKS],
